@@ -1,0 +1,16 @@
+//go:build verif
+
+package circuitbreaker
+
+import "github.com/failsafe-go/failsafe-go/internal/util"
+
+type verifClock struct{ now func() int64 }
+
+func (c *verifClock) CurrentUnixNano() int64 { return c.now() }
+
+var _ util.Clock = &verifClock{}
+
+// VerifSetClock replaces the builder's clock with now. Verification hook: only compiled with -tags verif.
+func VerifSetClock[R any](builder CircuitBreakerBuilder[R], now func() int64) {
+	builder.(*config[R]).clock = &verifClock{now: now}
+}
